@@ -38,7 +38,8 @@ def strip_doc(d):
 def play_history(bins, beh, n, hist, rng):
     """hist: list of {"kind": complete|abort|crash, "n": effects performed, optional "fail": bool}"""
     targets = [{"path": "t1"}, {"path": "t2", "uses": ["t1"]}, {"path": "t3"}]
-    fx = fixture.Fixture(bins, targets, max_retained_runs=n)
+    # every second history runs in a repository on a memory file system (where there is one)
+    fx = fixture.Fixture(bins, targets, max_retained_runs=n, root_dir="/dev/shm" if (isinstance(beh, int) and beh % 2 == 1) else None)
     ev = [{"ev": "reset", "beh": beh, "n": n}]
     printed = {}
     try:
